@@ -44,10 +44,29 @@ def strat():
         C = draw(st.integers(3, 8))
         bs = draw(st.sampled_from([1, 2, 4]))
         limit = 480 * bs
-        n = draw(st.integers(0, 12)) if draw(st.integers(0, 11)) else draw(st.integers(30, 60))        # a whole page of lines
+        pk = draw(st.integers(0, 39))
+        narrow = False
+        if pk == 0:             # more lines than any internal chunk: a list of a few hundred short lines
+            n, narrow = draw(st.integers(257, 290)), True
+        elif pk <= 2:           # a page of many narrow lines (table cells, page numbers): dozens of lines in one batch
+            n, narrow, bs = draw(st.integers(36, 80)), True, 4
+            limit = 480 * bs
+        elif pk <= 5:
+            n = draw(st.integers(30, 60))        # a whole page of lines
+        else:
+            n = draw(st.integers(0, 12))
         crops = []
         for i in range(n):
-            kind = draw(st.sampled_from(["short", "short", "mid", "same", "long", "tiny"]))
+            kind = draw(st.sampled_from(["short", "short", "mid", "same", "long", "tiny"])) if not narrow else "narrow"
+            if narrow and i % 16:
+                # bulk of a big page: derived from the previous draw (keeps the number of Hypothesis draws bounded)
+                prev = crops[-1]
+                crops.append(dict(T=1 + (prev["T"] * 5 + i) % 7, tail=(prev["tail"] + i) % 4, seed=(prev["seed"] * 1103515245 + 12345 + i) % (2 ** 31),
+                                  style=prev["style"]))
+                continue
+            if kind == "narrow":
+                crops.append(dict(T=draw(st.integers(1, 7)), tail=draw(st.integers(0, 3)), seed=draw(st.integers(0, 2 ** 31 - 1)), style=draw(st.sampled_from(["onehot", "graded"]))))
+                continue
             if kind == "same" and crops:
                 T = crops[-1]["T"]
                 tail = crops[-1]["tail"]
@@ -213,6 +232,8 @@ def body(ctx, case):
         for j in range(n):
             sp = ls[j]
             ctx.check(hasattr(sp, "toarray"), "sparse_mode_returns_dense", desc)
+            ctx.check(isinstance(dres[1][j], np.ndarray), "dense_mode_does_not_return_dense_logits",
+                      lambda: "line %d: %s; " % (j, type(dres[1][j]).__name__) + desc())
             dd = np.asarray(dres[1][j], dtype=np.float32)
             sd = sp.toarray()
             ctx.check(sd.shape == dd.shape, "sparse_shape", desc)
